@@ -331,6 +331,17 @@ class Doc(object):
         return [norm(r.node.id, r.vals) for r in self.recs]
 
 
+def concat_docs(docs):
+    """one file holding the interchanges of several generated documents, in order (they must have been generated from different map objects or
+    be used by checks that do not compare loop instances across them)"""
+    d = Doc()
+    d.entry, d.mapfile, d.charset = docs[0].entry, '+'.join(x.mapfile for x in docs), docs[0].charset
+    d.meta = {'parts': [x.mapfile for x in docs], 'map': d.mapfile}
+    for x in docs:
+        d.recs += x.recs
+    return d
+
+
 def norm(sid, vals):
     els = []
     for v in vals:
